@@ -3,6 +3,7 @@ package main
 import (
 	"encoding/json"
 	"fmt"
+	"hash/fnv"
 	"sort"
 	"strconv"
 	"strings"
@@ -231,7 +232,18 @@ func probe(y, t string) string {
 	return "_ = " + y
 }
 
+// convSpelling: the holder is declared `x := I(v)` instead of `var x I = v` (set per form by body,
+// from the hash of the form's identity: concrete syntax that the specification does not tell apart).
+var convSpelling bool
+
 func capture(name, s, d string) string {
+	if convSpelling && (d == "val" || d == "ptr") {
+		t := goType(s)
+		if strings.HasPrefix(t, "interface") {
+			t = "(" + t + ")"
+		}
+		return name + " := " + t + "(" + operand(d) + ")"
+	}
 	switch d {
 	case "val":
 		return "var " + name + " " + goType(s) + " = v"
@@ -250,6 +262,9 @@ func operand(d string) string {
 
 // body renders the statements of one form (between the recover guard and nothing else).
 func (f *form) body(id string) string {
+	hs := fnv.New32a()
+	hs.Write([]byte(id))
+	convSpelling = hs.Sum32()%3 == 0
 	if f.shared() {
 		return f.sharedBody(id)
 	}
